@@ -260,7 +260,7 @@ func writeGroupIni(cmd *Command, group *Group, namespace string, writer io.Write
 		kind := val.Type().Kind()
 		switch kind {
 		case reflect.Slice:
-			kind = val.Type().Elem().Kind()
+			kind = iniValueKind(val.Type().Elem())
 
 			if val.Len() == 0 {
 				writeOption(writer, oname, kind, "", "", true, option.iniQuote)
@@ -272,7 +272,7 @@ func writeGroupIni(cmd *Command, group *Group, namespace string, writer io.Write
 				}
 			}
 		case reflect.Map:
-			kind = val.Type().Elem().Kind()
+			kind = iniValueKind(val.Type().Elem())
 
 			if val.Len() == 0 {
 				writeOption(writer, oname, kind, "", "", true, option.iniQuote)
@@ -297,7 +297,7 @@ func writeGroupIni(cmd *Command, group *Group, namespace string, writer io.Write
 		default:
 			v, _ := convertToString(val, option.tag)
 
-			writeOption(writer, oname, kind, "", v, commentOption, option.iniQuote)
+			writeOption(writer, oname, iniValueKind(val.Type()), "", v, commentOption, option.iniQuote)
 		}
 
 		if comments {
@@ -308,6 +308,16 @@ func writeGroupIni(cmd *Command, group *Group, namespace string, writer io.Write
 	if sectionwritten && !comments {
 		fmt.Fprintln(writer)
 	}
+}
+
+// iniValueKind returns the kind that decides how a value of type tp is
+// written (strings may need quoting): its own kind, found behind pointers.
+func iniValueKind(tp reflect.Type) reflect.Kind {
+	for tp.Kind() == reflect.Ptr {
+		tp = tp.Elem()
+	}
+
+	return tp.Kind()
 }
 
 func writeOption(writer io.Writer, optionName string, optionType reflect.Kind, optionKey string, optionValue string, commentOption bool, forceQuote bool) {
